@@ -233,7 +233,15 @@ class PathEnumerator:
         if isinstance(st, ast.Expr):
             if isinstance(st.value, ast.Constant):
                 return [p]
-            if isinstance(st.value, (ast.Yield, ast.YieldFrom)):
+            if isinstance(st.value, ast.YieldFrom):
+                # ``yield from xs`` hands on every element of xs: the loop it abbreviates
+                tmp = f"_qcl_elem_{st.lineno}"
+                loop = ast.For(target=ast.Name(id=tmp, ctx=ast.Store()), iter=st.value.value,
+                               body=[ast.Expr(value=ast.Yield(value=ast.Name(id=tmp, ctx=ast.Load())))], orelse=[])
+                ast.copy_location(loop, st)
+                ast.fix_missing_locations(loop)
+                return self.stmt(loop, p, fr)
+            if isinstance(st.value, ast.Yield):
                 v = ev.expr(st.value.value, f) if st.value.value is not None else NONE
                 p.events.append(Event("yield", st, v))
                 return [p]
